@@ -38,7 +38,8 @@ var AllListKinds = []string{LBullet, LDecimal, LLowerLetter, LUpperLetter, LLowe
 
 // Symbols drawn for KSym items: BMP, outside the private use area, no
 // Markdown meaning, present in common Unicode fonts.
-var Symbols = []string{"→", "★", "✓", "©", "§", "€", "Ω", "±"}
+// (three of them above U+7FFF: w:char is a four-digit hexadecimal number, ST_ShortHexNumber, up to FFFF)
+var Symbols = []string{"→", "★", "✓", "©", "§", "€", "Ω", "±", "＋", "￥", "가"}
 
 type genState struct {
 	t    *rapid.T
